@@ -32,8 +32,13 @@ static thread_data* vp_td;
 static arena* vp_arena;
 static cancellation_disseminator* vp_cd;
 static thread_control_monitor* vp_mon;
+#ifndef VP_WORLD_WITH_ARENA_CPP
 // arena.cpp is not part of this unit: the arena's waiting-threads monitor is a real, constructed monitor without sleepers
 thread_control_monitor& arena::get_waiting_threads_monitor() { return *vp_mon; }
+#else
+// a wrapper that includes the real arena.cpp (props/C16 iso_dispatch): arena::get_waiting_threads_monitor forwards to threading_control
+thread_control_monitor& threading_control::get_waiting_threads_monitor() { return *vp_mon; }
+#endif
 
 // threading_control.cpp is not part of this unit: its one entry point used here forwards to a real
 // cancellation_disseminator that knows the single model thread (what threading_control_impl does).
